@@ -19,10 +19,11 @@ RULE = (
 )
 ASSUMPTIONS = [
     "tolerances: vw 2*errTol+1e-4 (two brentq roots with xtol=errTol); vJ, vLTE, matching 1e-4 relative (hydro rtol 1e-6 x spline accuracy phaseTracerTol^(1/2)); "
-    "alpha_n, psi_n 1e-3; cs^2, cb^2 3e-3 (second derivative of a cubic spline with dT = Tscale*tol^(1/4)); widths*Tn and offsets 5*pressRelErrTol; "
+    "alpha_n, psi_n 1e-3; cs^2, cb^2 3e-3 (second derivative of a cubic spline with dT = Tscale*tol^(1/4)); widths*Tn, offsets and field profiles 5e-3 (10x the largest spread between equivalent runs observed on the unchanged tree); "
     "tabulated ranges 2*dT/Tn; critical temperature 1e-6",
     "a run that raises in scaled units where the reference run succeeds is a violation (reported with the stage that raised)",
     "out-of-equilibrium particles excluded (collision files are LFS pointers)",
+    "models are chosen so that both phases exist with a margin over [0.8 Tn, 1.2 T(vJ)] as the property's quantifier demands: a one-field model whose symmetric phase merges continuously into the broken one inside that range (T0 > 0.8 Tn) is inadmissible (the tracer may legitimately stop at, or follow through, the continuous bifurcation)",
 ]
 
 
@@ -87,22 +88,24 @@ def case_pair(c: dict) -> dict:
             r.tag("pair-runaway")
         r.close("Tplus/s", got["Tplus"] / s / ref["Tplus"], 1.0, 2e-4 + (2 * ref["errTol"] if ref["vw"] is not None else 0))
         r.close("Tminus/s", got["Tminus"] / s / ref["Tminus"], 1.0, 2e-4 + (2 * ref["errTol"] if ref["vw"] is not None else 0))
-        ptol = 5 * ref["pRel"]
-        r.close("widths*s", got["widths"] * s / ref["widths"], 1.0, ptol)
-        r.close("offsets", got["offsets"], ref["offsets"], ptol * (1 + np.abs(ref["offsets"])))
+        # wall shape: 10x the largest spread between equivalent runs observed on the unchanged tree (see C08); the solver's
+        # stopping rule gives no sharper a-priori bound
+        wtol = 5e-3
+        r.close("widths*s", got["widths"] * s / ref["widths"], 1.0, wtol)
+        r.close("offsets", got["offsets"], ref["offsets"], wtol)
         scale_f = np.max(np.abs(ref["fieldProfiles"]))
-        r.close("fieldProfiles/s", got["fieldProfiles"] / s, ref["fieldProfiles"], ptol * scale_f)
-        r.close("temperatureProfile/s", got["temperatureProfile"] / s / ref["temperatureProfile"], 1.0, ptol * 0.1)
-        r.close("velocityProfile", got["velocityProfile"], ref["velocityProfile"], ptol * 0.1)
+        r.close("fieldProfiles/s", got["fieldProfiles"] / s, ref["fieldProfiles"], wtol * scale_f)
+        r.close("temperatureProfile/s", got["temperatureProfile"] / s / ref["temperatureProfile"], 1.0, 1e-4 + 0.2 * ref["errTol"])
+        r.close("velocityProfile", got["velocityProfile"], ref["velocityProfile"], 1e-4 + 2 * ref["errTol"])
     return r.result(nontrivial=got.get("stage") == "done")
 
 
 def cases(tier):
     out = []
-    pts = [("xsm2", 100.0), ("xsm2", 95.0), ("cubicB", 105.5)]
+    pts = [("xsm2", 100.0), ("xsm2", 95.0), ("cubicD", 100.0)]
     scales = [1e-2, 1e-1, 10.0, 1e2] if tier == "quick" else [1e-2, 3e-2, 1e-1, 10.0, 3e1, 1e2]
     if tier == "thorough":
-        pts += [("xsm2", 103.0), ("cubicC", 93.73), ("xsm2", 90.0)]
+        pts += [("xsm2", 103.0), ("cubicD", 95.0), ("xsm2", 90.0)]
     for base, Tn in pts:
         for settings in ("default", "tight"):
             for s in scales:
